@@ -486,4 +486,40 @@ MUTANTS = [
       {"C18": ""}),
     M("c18-max-first", ["C18"], "src/state/fd.rs",
       "FiniteDomain::Sparse(v) => v.last().copied().unwrap(),", "FiniteDomain::Sparse(v) => v.first().copied().unwrap(),", {"C18": "delegation"}),
+    M("c16-registry-line-removed", ["C16"], "src/state/mod.rs",
+      "            || constraint.is::<crate::relation::clpfd::minusfd::MinusFdConstraint<U, E>>()\n", "", {"C16": "registry"}),
+    M("c16-f5-no-rewalk", ["C16"], "src/state/mod.rs",
+      "        let x = &self.smap_ref().walk(x).clone();\n", "", {"C16": "walks-operand"}),
+    M("c16-f5-no-fixpoint", ["C16"], "src/state/mod.rs",
+      "            if self.smap_ref().len() == bindings {\n                return Ok(self);\n            }",
+      "            if self.smap_ref().len() >= bindings {\n                return Ok(self);\n            }",
+      {"C16": "fixpoint"}),
+    M("c16-f5-no-recheck", ["C16"], "src/state/reification.rs",
+      "            match state.run_constraints() {\n                Ok(state) => Stream::unit(Box::new(state)),",
+      "            match Ok::<State<U, E>, ()>(state) {\n                Ok(state) => Stream::unit(Box::new(state)),",
+      {"C16": "recheck-before-labeling"}, more=[("src/state/reification.rs", "use crate::stream::Stream;", "use crate::stream::Stream;\nuse crate::state::State;")]),
+    M("c16-minus-ground-plus", ["C16"], "src/relation/clpfd/minusfd.rs",
+      "uwalk.get_number().unwrap() - vwalk.get_number().unwrap()", "uwalk.get_number().unwrap() + vwalk.get_number().unwrap()", {"C16": "ground-test"}),
+    M("c16-ltefd-cut-wrong-side", ["C16"], "src/relation/clpfd/ltefd.rs",
+      "Rc::new(udomain.copy_before(|u| vmax < *u).ok_or(())?),", "Rc::new(udomain.copy_before(|u| umin < *u).ok_or(())?),", {"C16": "ltefd"}),
+    M("c16-singleton-keeps-domain", ["C16"], "src/state/mod.rs",
+      "                // Remove domain information from store\n                let _ = self.dstore_to_mut().remove(x);\n", "", {"C16": "bound-implies-no-domain"}),
+    M("c16-update-no-intersect", ["C16"], "src/state/mod.rs",
+      "            Some(old_domain) => match old_domain.intersect(domain.as_ref()) {\n                Some(intersection) => self.resolve_storable_domain(x, Rc::new(intersection)),\n                None => Err(()), /* disjoint domains */\n            },",
+      "            Some(_old_domain) => self.resolve_storable_domain(x, domain),",
+      {"C16": "intersects"}),
+    M("c17-f6-returns", ["C17"], "src/relation/clpfd/timesfd.rs",
+      "                let wlow = corners.iter().copied().min().unwrap();", "                let wlow = corners[0];", {"C17": "bounds=w"}),
+    M("c17-times-unguarded-quotient", ["C17"], "src/relation/clpfd/timesfd.rs",
+      "                let (ulow, uhigh) = if nonnegative && vmin > 0 {", "                let (ulow, uhigh) = if vmin > 0 {", {"C17": "bounds=u"}),
+    M("c17-plus-bounds-swapped", ["C17"], "src/relation/clpfd/plusfd.rs",
+      "wmin.saturating_sub(vmax)..=wmax.saturating_sub(vmin),", "wmin.saturating_sub(vmin)..=wmax.saturating_sub(vmax),", {"C17": "bounds=u"}),
+    M("c17-label-skips-last", ["C17"], "src/state/reification.rs",
+      "                }, xdomain.iter().rev())", "                }, xdomain.iter().rev().skip(1))", {"C17": "one-branch-per-value"}),
+    M("c17-hidden-not-once", ["C17"], "src/state/reification.rs",
+      "proto_vulcan!( onceo { force_ans(bound_x) } ).solve(engine, state)", "force_ans(bound_x).solve(engine, state)", {"C17": "hidden"}),
+    M("c17-force-ans-head-only", ["C17"], "src/state/reification.rs",
+      "                    force_ans(head),\n                    force_ans(tail),", "                    force_ans(head),", {"C17": "labeling-coverage"}),
+    M("silent-c17-unnarrowed-u", ["C17", "C16"], "src/relation/clpfd/plusfd.rs",
+      "wmin.saturating_sub(vmax)..=wmax.saturating_sub(vmin),", "umin..=umax,", silent=True),
 ]
